@@ -2481,11 +2481,14 @@ getObjectSpecification(PyObject* module, PyObject* ob)
           PyObject_IsInstance(result, OBJECT(specification_base_class));
         if (is_instance < 0) {
             /* Propagate all errors */
+            Py_DECREF(result);
             return NULL;
         }
         if (is_instance) {
             return result;
         }
+        /* Not a specification: ignore it. */
+        Py_DECREF(result);
     }
 
     /* We do a getattr here so as not to be defeated by proxies */
